@@ -140,13 +140,18 @@ def run(ctx):
                     keep = sorted(rng.sample(sorted(full), rng.randint(1, max(1, len(full) - 1))))
                     custom[tk] = {k2: full[k2] for k2 in keep}
                     ck = sorted(set(ck) | {keys.index(tk)})
+                # a custom top-level entry that the file's entry for this spacecraft does NOT have (the shipped sets list no
+                # `thermometer_0`; the calibrator reads it when given): it must be taken, not dropped
+                if rng.random() < 0.2 and "thermometer_0" not in tables[f][sat]:
+                    custom["thermometer_0"] = {"d0": round(rng.uniform(1, 300), 3), "d1": round(rng.uniform(0.01, 1), 4)}
+                    ck = sorted(set(ck) | {len(keys)})      # for the model: one more key, beyond the file's own
                 if shared is not None and rng.random() < 0.7:
                     custom = copy.deepcopy(shared)
                     ck = sorted(keys.index(k_) for k_ in shared)
                     reqs.append((sat, f, keys, ck, custom, True, rewrite_to))
                 else:
                     reqs.append((sat, f, keys, ck, custom, False, rewrite_to))
-                hist_payload.append({"sat": sat, "file": f, "custom_keys": [keys[k] for k in ck], "path3_rewritten_before": rewrite_to})
+                hist_payload.append({"sat": sat, "file": f, "custom_keys": sorted(custom), "path3_rewritten_before": rewrite_to})
                 prev = (sat, f)
             tokens = []
             for i, (sat, f, keys, ck, custom, use_shared, rewrite_to) in enumerate(reqs):
